@@ -4,6 +4,7 @@
 (* controllers + state.Cluster is a sequence of                            *)
 (*   Step    an environment mutation of one API object (or Mark / Unmark / *)
 (*           Seed / Restart)                 -> the object becomes pending *)
+(*           (kind2: a created NodeClaim also schedules state.nodeclaimgc) *)
 (*   Deliver one Reconcile of the real informer controller for one object  *)
 (*           (requeue = it asked to be called again: still pending)        *)
 (*   Mem     the cache projected through its exported accessors, together  *)
@@ -42,7 +43,8 @@ TStep ==
     /\ Ev.e = "Step"
     /\ st' = [st EXCEPT
          !.pend = IF Ev.a = "Restart" THEN {<<o[1], o[2]>> : o \in Range(Ev.objs)}
-                  ELSE IF Ev.kind = "-" THEN @ ELSE @ \cup {<<Ev.kind, Ev.x>>},
+                  ELSE (IF Ev.kind = "-" THEN @ ELSE @ \cup {<<Ev.kind, Ev.x>>})
+                       \cup (IF Ev.kind2 = "-" THEN {} ELSE {<<Ev.kind2, Ev.x>>}),
          !.marks = IF Ev.a = "Restart" THEN {}
                    ELSE IF Ev.a = "Mark" /\ Ev.hit THEN @ \cup {Ev.x}
                    ELSE IF Ev.a = "Unmark" THEN @ \ {Ev.x} ELSE @,
